@@ -112,9 +112,12 @@ func newTx(db *DB, writable bool) (tx *Tx, err error) {
 
 // getTxID returns the tx id.
 func (tx *Tx) getTxID() (id uint64, err error) {
-	node, err := snowflake.NewNode(tx.db.opt.NodeNum)
-	if err != nil {
-		return 0, err
+	node := tx.db.txIDNode
+	if node == nil {
+		node, err = snowflake.NewNode(tx.db.opt.NodeNum)
+		if err != nil {
+			return 0, err
+		}
 	}
 
 	id = uint64(node.Generate().Int64())
